@@ -46,7 +46,9 @@ CONSTANTS Transports,    \* subset of {"min", "prefix", "obfs4"}
           ForgedKinds,   \* subset of {"none", "resp", "sig", "both"}
           Outdated,      \* subset of BOOLEAN: the client's ClientConf generation is behind the registrar's.  A front end then
                          \* ATTACHES its ClientConf to what the client is told - and changes nothing else of it
-          Variant        \* "intended" | "clone-early" | "forward-forged" | "override-despite-disable"
+          Variant        \* "intended" | "clone-early" | "forward-forged" | "override-despite-disable" | "noauth-drops-exclusions"
+                         \* (the registrar is BUILT from its configuration by one of two constructors - NewRegProcessor for
+                         \* zmq_auth_type CURVE, NewRegProcessorNoAuth for NULL; in this variant the second one loses the exclusion list)
                          \* | "exclude-after-subst" | "last-wins" | "rebuild-for-outdated" (the answer for an outdated client is
                          \* rebuilt field by field and the transport parameters are left out)
 
@@ -104,7 +106,10 @@ SubstWanted(q, c) ==
   /\ (q.t = "prefix" => ~q.disable)      \* it rewrites the prefix parameters too, so the client must allow overrides
   /\ PctOf(c, q.t) = 100
   /\ Total(SubsOf(c, q.t)) > 0
-SubstActive(q, c) == SubstWanted(q, c) /\ (Variant = "exclude-after-subst" \/ ~OrigExcluded(q, c))
+\* the exclusion list the constructed processor holds (Construct: configuration -> processor state)
+KeptExcl(c) == IF Variant = "noauth-drops-exclusions" /\ ~c.auth THEN "none" ELSE c.excl
+HeldExcluded(q, c) == KeptExcl(c) = "orig" /\ HasV4(q.fam)
+SubstActive(q, c) == SubstWanted(q, c) /\ (Variant = "exclude-after-subst" \/ ~HeldExcluded(q, c))
 Draws(q, c) == IF SubstWanted(q, c) THEN 0..(Total(SubsOf(c, q.t)) - 1) ELSE {0}
 
 Chosen(q, c, x) == SubsOf(c, q.t)[Pick(SubsOf(c, q.t), x)].n
